@@ -28,7 +28,10 @@ PLANS = ['ok', 'ok', 'exit:1', 'exit:10', 'exit:11', 'exit:31', 'exit:40', 'exit
          'die:b:0:sig', 'die:b:0:1', 'die:m:5:sig', 'die:m:150:2', 'die:e:0:sig', 'die:e:3:1', 'die:e:1:sig',
          # exiting with status 0 without having read everything must not count as success either
          # (the envelope descriptor is closed at once, so that the server's write fails for sure)
-         'ce:0', 'ce:0', 'ce:1', 'ce:31', 'ce:sig']
+         'ce:0', 'ce:0', 'ce:1', 'ce:31', 'ce:sig',
+         # the queue program is gone at once: seen by queue_init()'s waitpid(WNOHANG) (no 354, "451 4.3.2 can not connect to queue") or
+         # missed by it (354, EPIPE already at the Received: header) - the schedule is forced by harness/session/wraps.c
+         'ns', 'ns', 'nh', 'nh']
 # die:m:<n> only takes effect when the message has at least n octets: n <= 150 is below the size of the trace header alone;
 # the variant beyond the pipe buffer is used only in sessions whose messages are all larger than that
 BIG_PLANS = ['die:m:70000:sig', 'die:m:70000:1', 'die:m:66000:2', 'ok', 'exit:31', 'die:a:0:sig']
@@ -55,4 +58,22 @@ def gen_cases(engine, rng, tier):
             if rng.random() < 0.5:
                 chunks.append(b'RSET\r\n')
         out.append(session_gen.case('relay=none;ip=v4;databytes=0;qq=' + ','.join(plan), chunks))
+    # "If qmail-queue cannot be started": DATA repeated inside the same transaction after a refusal, with and without RSET in
+    # between, payloads whose first line is the dot / empty / a read error (the drain of err_write starts with the command line);
+    # $QMAILQUEUE not executable at all (every invocation ends in _exit(120))
+    for _ in range(n // 3):
+        noexec = rng.random() < 0.3
+        plan = [rng.choice(['ns', 'nh'] if noexec else ['ns', 'ns', 'nh', 'nh', 'ok', 'ok', 'exit:31', 'die:b:0:1']) for _ in range(5)]
+        chunks = [rng.choice([b'HELO c.example.net\r\n', b'EHLO c.example.net\r\n'])]
+        for _ in range(rng.choice([1, 2])):
+            chunks.append(session_gen.mail(rng, rng.choice(['ok', 'ok', 'bounce'])))
+            for _ in range(rng.choice([1, 2])):
+                chunks.append(session_gen.rcpt(rng, rng.choice(['ok', 'ok', 'no'])))
+            for _ in range(rng.choice([1, 2, 3])):
+                chunks.append(b'DATA\r\n')
+                chunks.append(rng.choice([b'Subject: t\r\n\r\nbody\r\n.\r\n', b'.\r\n', b'\r\n.\r\n', b'a\rb\r\nx\r\n.\r\n', b'bare\nlf\r\n.\r\n',
+                                          b'Subject: t\r\n\r\n' + b'y' * 70 + b'\r\n.\r\n']))
+                if rng.random() < 0.3: chunks.append(rng.choice([b'RSET\r\n', b'NOOP\r\n', session_gen.rcpt(rng, 'ok')]))
+        cfg = 'relay=none;ip=v4;databytes=0;qq=' + ','.join(plan) + (';qqexec=0' if noexec else '')
+        out.append(session_gen.case(cfg, chunks))
     return out + session_gen.gen(rng, 150 if tier == 'quick' else 3000)
